@@ -299,7 +299,7 @@ func c03writeRead(x poly.Sequence, want []byte) (fields []string, status string)
 	if err := os.MkdirAll(dir, 0o755); err != nil {
 		return nil, "diff"
 	}
-	path := filepath.Join(dir, fmt.Sprintf("wr-%d.gb", os.Getpid()))
+	path := filepath.Join(dir, fmt.Sprintf("wr-%d-%d.gb", os.Getpid(), runner.Unique()))
 	defer os.Remove(path)
 	genbank.Write(x, path)
 	got, err := os.ReadFile(path)
